@@ -149,40 +149,54 @@ Theorem C14_walk_to_compose :
 Proof. exact walk_to_compose. Qed.
 Print Assumptions C14_walk_to_compose.
 
-(* RangeScanner.Scan, under ITS OWN line-break convention (a cluster starting
-   with '\r' or '\n'): for any split function whose advances and tokens end on
-   cluster boundaries, Start = pos_at (offset) and End = pos_at (offset +
-   len(token)), over data = b[start.Byte:]. *)
+(* RangeScanner.Scan (pos_scanner.go after 52c61bf / 6be209f). For any start
+   position, any buffer b (whole file or fragment — all of b is scanned, the
+   start position only offsets what is reported), any segmentation gcs of b in
+   which a cluster ending in '\n' is "\n" or "\r\n" (clusters_agree: the code
+   tests the last byte of the cluster, the lexer tests the whole cluster), and
+   any split function whose advances and tokens end on cluster boundaries:
+   Start = pos_at is_nl_lexer (offset), End = pos_at is_nl_lexer (offset +
+   len(token)) — the same canonical position as for the lexer. *)
 Theorem C14_range_scanner_faithful :
   forall (start : pos) (b gcs : list Z) (results : list (Z * Z)),
-  0 <= p_byte start ->
-  let data := skipn (Z.to_nat (p_byte start)) b in
-  Forall (fun n => 0 < n) gcs -> sumZ gcs = zlen data ->
+  Forall (fun n => 0 < n) gcs -> sumZ gcs = zlen b ->
+  clusters_agree is_nl_rs is_nl_lexer b gcs ->
   rs_aligned gcs results ->
   exists out, range_scanner_gcs start b results gcs = Some out /\
-              rs_faithful start data gcs (p_byte start) results out.
+              rs_faithful is_nl_lexer start b gcs (p_byte start) results out.
 Proof. exact range_scanner_faithful. Qed.
 Print Assumptions C14_range_scanner_faithful.
 
-(* REFUTED: RangeScanner does not report the canonical positions of the
-   lexer's convention. Witness "a\rb\nc\n" with bufio.ScanLines: the range of
-   the line "c" starts at 3:1 (byte 4); counting "\n"/"\r\n" clusters gives 2:1. *)
-Theorem C14_range_scanner_agrees_with_lexer_convention_refuted :
-  exists (b gcs : list Z) (results : list (Z * Z)) (cls : list (list Z)) (rg : range),
-    In rg (range_scanner initial_pos b results cls) /\
-    pos_at is_nl_lexer initial_pos b gcs (p_byte (r_start rg)) <> Some (r_start rg).
-Proof. exact range_scanner_agrees_with_lexer_convention_refuted. Qed.
-Print Assumptions C14_range_scanner_agrees_with_lexer_convention_refuted.
+(* AGREEMENT of RangeScanner with the lexer: same buffer, start position and
+   segmentation; a token's Start/End and a range's Start/End with the same byte
+   offset are the same position. *)
+Theorem C14_range_scanner_agrees_with_lexer :
+  forall (blank : Z -> bool), (forall c, blank c = true -> is_nl_lexer [c] = false) ->
+  forall (start : pos) (b gcs : list Z) (toks : list rtok) (results : list (Z * Z)),
+  tiled (blank_gap blank) 0 b toks -> aligned gcs 0 toks ->
+  Forall (fun n => 0 < n) gcs -> sumZ gcs = zlen b ->
+  clusters_agree is_nl_rs is_nl_lexer b gcs -> rs_aligned gcs results ->
+  exists outT outR,
+    emit_all_gcs (mkAcc start (p_byte start)) gcs toks = Some outT /\
+    range_scanner_gcs start b results gcs = Some outR /\
+    forall tk rg p q, In tk outT -> In rg outR ->
+      (p = r_start (t_range tk) \/ p = r_end (t_range tk)) ->
+      (q = r_start rg \/ q = r_end rg) ->
+      p_byte p = p_byte q -> p = q.
+Proof. exact range_scanner_agrees_with_lexer. Qed.
+Print Assumptions C14_range_scanner_agrees_with_lexer.
 
-Theorem C14_lexer_and_range_scanner_disagree_on_lone_cr :
+(* the former divergence witness "a\rb\nc\n" (DESIGN §9 #13): both now put the
+   byte 'c' at 2:1 *)
+Theorem C14_lexer_and_range_scanner_agree_on_lone_cr :
   let src := [97; 13; 98; 10; 99; 10] in
   (exists toks tk,
      lex_config src initial_pos [1; 1; 1; 1; 1; 1] = LexOk toks /\ In tk toks /\
      t_bytes tk = [99] /\ r_start (t_range tk) = mkPos 2 1 4) /\
   range_scanner initial_pos src [(4, 3); (2, 1)] [[1; 1; 1; 1]; [1; 1]] =
-    [mkRange (mkPos 1 1 0) (mkPos 2 2 3); mkRange (mkPos 3 1 4) (mkPos 3 2 5)].
-Proof. exact lexer_and_range_scanner_disagree_on_lone_cr. Qed.
-Print Assumptions C14_lexer_and_range_scanner_disagree_on_lone_cr.
+    [mkRange (mkPos 1 1 0) (mkPos 1 4 3); mkRange (mkPos 2 1 4) (mkPos 2 2 5)].
+Proof. exact lexer_and_range_scanner_agree_on_lone_cr. Qed.
+Print Assumptions C14_lexer_and_range_scanner_agree_on_lone_cr.
 
 (* ---- non-vacuity -------------------------------------------------------------------- *)
 
